@@ -1108,6 +1108,54 @@ def non_record_line_echoed_whole(ctx, rid):
 
 
 # ------------------------------------------------------------------------------------------------
+# R12.10  only `already failed in this run` is turned into a job result
+
+def only_immediate_exit_becomes_job_result(ctx, rid):
+    ctx.rule(rid, "the builder turns a dirtiness-callback error into a job's exit status only for the ImmediateExit kind: no builder code maps other error kinds through RedoErrorKind::exit_code(), so a CyclicDependency found by the dependency walk still aborts the command with its own status (208)")
+    prog = ctx.prog
+    hits = []
+    n = 0
+    for k, b in prog.bodies.items():
+        if not k.startswith("builder::"):
+            continue
+        n += 1
+        for i in BA.of(b).calls(r"error::RedoErrorKind::exit_code|error::RedoError::exit_code"):
+            hits.append((b, i))
+    ctx.floor(rid, "builder bodies examined", n, 10)
+    ctx.ob(rid, "builder|no-exit_code-mapping-of-error-kinds", not hits, where=ctx.where(hits[0][0], hits[0][1]) if hits else "",
+           detail="builder.rs never converts an error kind into an exit code (only ImmediateExit carries one)" if not hits else
+           "%s maps error kinds to exit codes: a cyclic-dependency error becomes an ordinary failed job and the detecting command no longer exits 208" % hits[0][0].key)
+    # positive control: the top-level commands do use exit_code()
+    ctrl = sum(1 for b in prog.bodies.values() if b.unit == "bin" and BA.of(b).calls(r"error::RedoErrorKind::exit_code|error::RedoError::exit_code"))
+    ctx.floor(rid, "exit_code() users in the bin unit (positive control)", ctrl, 1)
+
+
+# ------------------------------------------------------------------------------------------------
+# R10.11  the failed marker survives until a build completes
+
+def failed_marker_not_cleared_at_start(ctx, rid):
+    ctx.rule(rid, "start_self does not clear the target's failed marker before the job has run (no set_generated / set_changed / write of failed_runid on the job's record in the start-of-build transaction): a failed build has already had its un-redeclared edges deleted, so the marker is what makes the next run rebuild it - also after a kill")
+    prog = ctx.prog
+    SS = anchors.start_self(prog)
+    ba = BA.of(SS)
+    forks = ba.calls(anchors.FORK_START)
+    if not forks:
+        raise AnchorError("no fork in %s" % SS.key)
+    bad = []
+    for i in ba.calls(r"state::File::(set_generated|set_changed)"):
+        if ba.path([i], forks, incl=True) is not None:
+            bad.append((i, common.short(callee_paths(SS.blocks[i]["term"])[0])))
+    for (bb, _, st_) in field_writes(SS, r"state::File\.failed_runid"):
+        rv = st_["rv"]
+        is_none = rv["k"] == "agg" and rv.get("variant") == "None"
+        if is_none and ba.path([bb], forks, incl=True) is not None:
+            bad.append((bb, "failed_runid := None"))
+    ctx.ob(rid, "%s|failed-marker-kept-until-the-job-has-run" % SS.key, not bad, where=ctx.where(SS, bad[0][0]) if bad else SS.span,
+           detail="nothing before the fork clears failed_runid" if not bad else
+           "%s before the job runs clears the `failed last time` marker: after a failed build (edges already deleted) and a killed retry the target looks clean" % bad[0][1])
+
+
+# ------------------------------------------------------------------------------------------------
 # rules that are necessary conditions of several properties are evaluated once, in the table they were written
 # for, and reported under every property they matter to
 
@@ -1150,12 +1198,15 @@ def memo_after_failed_test(ctx, rid):
 TABLE = {
     "C02": [("R2.7", every_candidate_leaves_an_edge),
             ("R2.8", borrow("C03", "R3.2", None, "a build wrongly taken for a stamped one never advances changed_runid: the target and its dependents then re-run on every later redo-ifchange"))],
-    "C13": [("R13.6", every_candidate_leaves_an_edge), ("R13.7", check_never_refreshes_stamps)],
-    "C03": [("R3.9", signal_death_is_failure), ("R3.10", uncertain_is_not_built_directly), ("R3.11", stamp_reads_to_eof)],
+    "C13": [("R13.6", every_candidate_leaves_an_edge), ("R13.7", check_never_refreshes_stamps),
+            ("R13.8", borrow("C02", "R2.3", r"^add_dep\|", "a must-not-exist edge for a higher-priority .do candidate has to replace last build's row (and clear its deletion mark), or it is swept after the second build and a new candidate is never noticed"))],
+    "C03": [("R3.12", memo_after_failed_test), ("R3.9", signal_death_is_failure), ("R3.10", uncertain_is_not_built_directly), ("R3.11", stamp_reads_to_eof)],
     "C05": [("R5.8", signal_death_is_failure),
             ("R5.9", borrow("C01", "R1.3", None, "the edge to a requested target must exist even when that target then fails, or the caller is not dirty next run and the failed target is never retried")),
             ("R5.10", memo_after_failed_test), ("R5.12", callback_error_keeps_cause), ("R5.13", flags_exported_only_when_set),
-            ("R5.11", decision_sees_finished_jobs)],
+            ("R5.11", decision_sees_finished_jobs),
+            ("R5.14", borrow("C13", "R13.3", r"argv\[0\.\.2\]", "scripts run under `sh -e`: a failing redo-ifchange inside a .do stops the script and fails the target")),
+            ("R5.15", failed_marker_not_cleared_at_start)],
     "C04": [("R4.6", output_probed_with_lstat), ("R4.7", direct_modification_is_inequality), ("R4.8", stdout_amount_from_fstat),
             ("R4.9", borrow("C13", "R13.3", r"^[^|]*\|\$3=", "two targets that differ only in the matched extension must not share one temp output file: the second script's output would replace or destroy the first's"))],
     "C11": [("R11.8", direct_modification_is_inequality),
@@ -1167,17 +1218,20 @@ TABLE = {
     "C08": [("R8.10", cheat_pipe_only_for_j0)],
     "C01": [("R1.9", check_never_refreshes_stamps),
             ("R1.10", borrow("C02", "R2.3", r"marked-edges-still-listed", "after an interrupted rebuild the marked edges are the only reason the target is dirty"))],
-    "C14": [("R14.6", borrow("C02", "R2.3", r"marked-edges-still-listed", "an ifcreate / always edge of an interrupted rebuild must still make the target dirty"))],
+    "C14": [("R14.7", borrow("C02", "R2.3", r"^add_dep\|", "a re-declared ifcreate edge must replace last build's row and clear its deletion mark")),
+            ("R14.6", borrow("C02", "R2.3", r"marked-edges-still-listed", "an ifcreate / always edge of an interrupted rebuild must still make the target dirty"))],
     "C09": [("R9.8", borrow("C12", "R12.2", None, "a lock id that is not registered turns a cycle into an endless fcntl wait")),
             ("R9.9", borrow("C08", "R8.1", None, "a counter written outside the accounting functions breaks the top-level self-test: an all-success build exits 1"))],
     "C17": [("R17.6", ood_lists_every_nonclean), ("R17.7", check_never_refreshes_stamps)],
     "C18": [("R18.7", done_status_type_agrees), ("R18.8", seen_only_when_shown), ("R18.9", record_after_partial_line),
             ("R18.10", record_names_relative_to_target_dir), ("R18.11", non_record_line_echoed_whole)],
     "C15": [("R15.7", key_never_bypasses_relpath), ("R15.8", relpath_is_componentwise)],
-    "C10": [("R10.8", rename_inside_result_transaction), ("R10.10", interrupted_creation_is_recoverable),
+    "C10": [("R10.8", rename_inside_result_transaction), ("R10.10", interrupted_creation_is_recoverable), ("R10.11", failed_marker_not_cleared_at_start),
             ("R10.9", borrow("C05", "R5.3", None, "a job that dies (non-zero or by signal) has its un-redeclared edges deleted by zap_deps2, so it must be marked failed in the same transaction or it looks clean after the kill"))],
-    "C12": [("R12.9", every_modified_dep_is_descended)],
-    "C16": [("R16.7", state_dir_creation_is_idempotent)],
+    "C12": [("R12.9", every_modified_dep_is_descended), ("R12.10", only_immediate_exit_becomes_job_result),
+            ("R12.11", borrow("C13", "R13.3", r"argv\[0\.\.2\]", "a .do on the cycle must stop at the failing redo-ifchange (`sh -e`), or the entry target exits 0 although the cycle was detected below"))],
+    "C16": [("R16.7", state_dir_creation_is_idempotent),
+            ("R16.8", borrow("C06", "R6.3", None, "a record read before waiting for another command's lock predates that command's commit: using it afterwards writes stale state over the other command's result"))],
 }
 
 
